@@ -100,6 +100,9 @@ type Server struct {
 	txnSeq   int
 	nextLbl  int
 
+	// LenientTrack: in lenient mode keep a minimal existence model of the keys outside the reserved namespace (see execute)
+	LenientTrack bool
+	lenientKeys  map[string]bool
 	// Lenient: commands on keys outside the reserved namespace are logged and answered +OK
 	// without being interpreted (the C01/C02 oracles are about the sequence, not semantics).
 	Lenient bool
@@ -436,6 +439,24 @@ func (s *Server) execute(ss *Session, name string, args [][]byte, txn int) resp.
 	switch {
 	case s.Lenient && !isControl(name) && !(len(args) > 0 && IsReservedKey(args[0])) && !reservedEval(name, args):
 		v = resp.OK()
+		if s.LenientTrack {
+			// minimal existence model: DEL / UNLINK answer how many of their keys were there (0 = a no-op, which a master
+			// does not propagate), any other write makes its first argument exist
+			switch {
+			case name == "del" || name == "unlink":
+				n := int64(0)
+				for _, k := range args {
+					id := strconv.Itoa(ss.DB) + "/" + string(k)
+					if s.lenientKeys[id] {
+						delete(s.lenientKeys, id)
+						n++
+					}
+				}
+				v = resp.Int(n)
+			case len(args) > 0 && !isReadOnly(name):
+				s.MarkExists(ss.DB, string(args[0]))
+			}
+		}
 	case !known:
 		v = resp.Err("ERR unknown command '" + name + "'")
 	default:
@@ -451,6 +472,14 @@ func (s *Server) execute(ss *Session, name string, args [][]byte, txn int) resp.
 		s.propagate(ss, dbBefore, name, args, v)
 	}
 	return v
+}
+
+// MarkExists: the key is there (lenient existence model).
+func (s *Server) MarkExists(db int, key string) {
+	if s.lenientKeys == nil {
+		s.lenientKeys = map[string]bool{}
+	}
+	s.lenientKeys[strconv.Itoa(db)+"/"+key] = true
 }
 
 func reservedEval(name string, args [][]byte) bool {
